@@ -215,7 +215,18 @@ impl Check for C01 {
                 let before = io.borrow().errors_returned.len();
                 match guard(|| lib.write(sink)) {
                     Err(p) => out.violation = Some(panic_violation("GdsLibrary::write(terminal)", &p, json!({"library": lib_artefact(&lib)}))),
-                    Ok(Err(_)) => out.probes.hit("write_terminal_err_reported"),
+                    Ok(Err(_)) => {
+                        out.probes.hit("write_terminal_err_reported");
+                        // history: after a failed write, the next write on this thread must produce the same stream as ever
+                        let sink = SimSink::new(&io, Policy::plain());
+                        let st2 = sink.store.clone();
+                        match guard(|| lib.write(sink)) {
+                            Ok(Ok(())) if *st2.borrow() == bytes0 => out.probes.hit("retry_after_failed_write_identical"),
+                            Ok(Ok(())) => out.violation = Some(viol("not-transparent", "write/retry-after-failure/bytes".into(), format!("a write that follows a failed write ({}) on the same thread produces a different stream ({} vs {} bytes)", label, st2.borrow().len(), bytes0.len()), &lib, Value::Null)),
+                            Ok(Err(e)) => out.violation = Some(viol("not-transparent", "write/retry-after-failure/result".into(), format!("a fault-free write fails after an earlier failed write: {}", e), &lib, Value::Null)),
+                            Err(p) => out.violation = Some(panic_violation("GdsLibrary::write(retry)", &p, json!({"library": lib_artefact(&lib)}))),
+                        }
+                    }
                     Ok(Ok(())) => {
                         let fired = io.borrow().errors_returned.len() > before;
                         if fired {
